@@ -287,6 +287,23 @@ def phase(pid, tier, rng, ev, rep, tmp, n_quick=2500, n_thorough=20000):
     # my families - every reduction they make goes through the same judgement
     from . import suite
     suite.run(pid, ev, rep, tmp)
+    if pid == 'C03':
+        cdrift = compile_phase(pid, tier, rng, ev, tmp)
+        if cdrift:
+            # the observables of the drifting grammars: every engine's trees against the meaning of the grammar as written
+            from . import c03
+            import itertools
+            short = [w for k in range(0, 4) for w in itertools.product(['A', 'B', '_C', 'D'], repeat=k)]
+            sps = []
+            for d in cdrift[:200]:
+                G = d['spec_G']
+                ins = set(rng.sample(short, 20))
+                for _ in range(12):
+                    sn = E.sample_sentence(G, rng, maxlen=6)
+                    if sn is not None:
+                        ins.add(tuple(sn))
+                sps.append({'G': G, 'ka': d['keep_all_tokens'], 'ph': d['maybe_placeholders'], 'inputs': sorted(ins), 'must': True, 'family': 'F_ebnf(compile drift)'})
+            c03.judge(pid, [c for c in C.pmap(c03.observe_case, sps) if not c['skip']], ev, rep, tmp, 'compile-drift')
     if sum(len(c['reds']) for c in cases) < (6000 if C.scale(100) == 100 else 10):
         raise C.MachineryFailure('vacuity (builder): %s' % ev.cov['counts'])
 
@@ -360,7 +377,7 @@ def observe_compile(spec):
     from lark import Lark
     G, ka, ph = spec['G'], spec['ka'], spec['ph']
     gtext = E.grammar_text(G)
-    out = {'gtext': gtext, 'ka': ka, 'ph': ph, 'skip': '', 'G': E.grammar_json(G, ka, ph)}
+    out = {'gtext': gtext, 'ka': ka, 'ph': ph, 'skip': '', 'G': E.grammar_json(G, ka, ph), 'spec_G': G}
     try:
         with O.budget(30):
             p = Lark(gtext, parser='earley', lexer='basic', keep_all_tokens=ka, maybe_placeholders=ph)
@@ -378,8 +395,17 @@ def observe_compile(spec):
 
 
 def compile_phase(pid, tier, rng, ev, tmp):
-    """drift level: the real compiled rules against Compile.tla"""
+    """drift level: the real compiled rules against Compile.tla; design level: MC_Compile closes the chain
+    EBNF.tla = TreeBuilder o CFG.Derivs o Compile on a catalogue"""
+    import copy
     import os
+    L = 4 if tier == 'quick' else 5
+    res = C.tlc('MC_Compile', 'SPECIFICATION Spec\nCONSTANT MaxLen = %d\nINVARIANT NotRefused\nINVARIANT CompiledMeansWritten\n'
+                'INVARIANT ExactOnAllButTheCollisions\nCHECK_DEADLOCK FALSE\n' % L, timeout=3000)
+    C.tlc_must_run(res, 'MC_Compile')
+    ev.add_tlc('MC_Compile MaxLen=%d (the compiled grammar means what the written one means)' % L, res, 'design')
+    if not res.ok:
+        raise C.MachineryFailure('MC_Compile: %s violated' % res.violated)
     sps = [{'G': s['G'], 'ka': s['ka'], 'ph': s['ph']} for s in specs(C.scale(1500 if tier == 'quick' else 12000), rng)]
     cases = [c for c in C.pmap(observe_compile, sps) if not c['skip']]
     ev.count('compiled_grammars_compared', len(cases))
@@ -394,10 +420,26 @@ def compile_phase(pid, tier, rng, ev, tmp):
         os.remove(paths[pi])
         for v in sorted(set(tuple(x) for x in res.verdicts)):
             c = cases[pi * CH + int(v[0]) - 1]
-            drift.append({'clause': v[2], 'grammar': c['gtext'], 'keep_all_tokens': c['ka'], 'maybe_placeholders': c['ph'], 'real': c['real']})
+            drift.append({'clause': v[2], 'grammar': c['gtext'], 'keep_all_tokens': c['ka'], 'maybe_placeholders': c['ph'], 'real': c['real'], 'spec_G': c['spec_G']})
     ev.cov['drift'] = ev.cov.get('drift', 0) + len(drift)
     ev.cov['drift_samples'] = ev.cov.get('drift_samples', []) + [{k: d[k] for k in ('clause', 'grammar')} for d in drift[:3]]
     if drift:
         print('DRIFT property=%s the compiled rules of %d grammar(s) differ from Compile.tla (not a violation by itself; first: %s)'
               % (pid, len(drift), json.dumps({k: drift[0][k] for k in ('clause', 'grammar')})[:300]))
+    # binding self-test: one symbol dropped from one recorded expansion -> exactly that grammar must be rejected
+    pick = next(c for c in cases if any(len(r['rhs']) >= 2 for r in c['real']))
+    bad = copy.deepcopy({'G': pick['G'], 'real': pick['real']})
+    r = next(r for r in bad['real'] if len(r['rhs']) >= 2)
+    r['rhs'].pop()
+    r['fo'].pop()
+    path = C.write_batch({'cases': [bad, {'G': pick['G'], 'real': pick['real']}]}, tmp, 'compile_selftest.json')
+    rs = C.tlc('TraceCompile', TRACE_CFG, env={'VERIF_BATCH': path}, workers=2, continue_=True, timeout=600)
+    C.tlc_must_run(rs, 'TraceCompile self-test')
+    os.remove(path)
+    got = sorted({int(v[0]) for v in rs.verdicts})
+    ev.cov['binding_selftest']['compile_corrupted_rule_rejected'] = got == [1]
+    if got != [1]:
+        raise C.MachineryFailure('compile self-test: corrupted case judged %s' % got)
+    if len(cases) < (800 if C.scale(100) == 100 else 3):
+        raise C.MachineryFailure('vacuity (compile): %d grammars' % len(cases))
     return drift
